@@ -85,20 +85,26 @@ func (e *Engine) verifyCase(key string, fd *ast.FuncDecl, c *FuncContract, pinne
 		}
 	}()
 	// loop ordinals, pre-order
+	var loopNodes []ast.Stmt
 	ast.Inspect(fd.Body, func(n ast.Node) bool {
 		switch s := n.(type) {
 		case *ast.ForStmt:
-			x.nLoops++
-			x.loopOrd[s] = x.nLoops
+			loopNodes = append(loopNodes, s)
 		case *ast.RangeStmt:
-			x.nLoops++
-			x.loopOrd[s] = x.nLoops
+			loopNodes = append(loopNodes, s)
 		}
 		return true
 	})
+	x.nLoops = len(loopNodes)
+	ords := e.loopOrdinals(key, x.nLoops)
+	present := map[int]bool{}
+	for i, s := range loopNodes {
+		x.loopOrd[s] = ords[i]
+		present[ords[i]] = true
+	}
 	for ord := range c.Loops {
-		if ord < 1 || ord > x.nLoops {
-			fail("contract names loop %d but the function has %d loops (contract/code mismatch)", ord, x.nLoops)
+		if !present[ord] {
+			fail("contract names loop %d but the function has no such loop any more (%d loops; contract/code mismatch)", ord, x.nLoops)
 		}
 	}
 	st := &State{vars: map[types.Object]Value{}, heaps: map[string]Term{}, fheaps: map[string]Term{}, ghost: map[string]Term{}}
